@@ -19,10 +19,12 @@ import N0Verif.Gen.Cp1252
   driver and validated against CPython by correspondence streams); the cp1252 table is not
   written by hand but generated from the interpreter (`Gen/Cp1252.lean`).
 
-  The code modelled is the code **with the fixes `C15-close` and `C15-a` applied**
+  The code modelled is the code **with the fixes `C15-close`, `C15-a`, `C15-c` and `C15-d` applied**
   (`out_filehandler.close()`: every write reaches the file before `save_file` returns; on the
   manual path the codec's signature is taken off every encoded piece and written once, in
-  front of the first piece, when the file has no content yet).
+  front of the first piece, when the file has no content yet; `load_file` / `load_lines` look for
+  a custom EOL in the file's encoding - as `save_file` wrote it - instead of its UTF-8 form;
+  `load_lines` in binary mode does not yield the empty piece after the last EOL).
 -/
 namespace N0.Files
 open N0 N0.Py
@@ -314,11 +316,15 @@ def loadFile (c : Codec) (fs : FS) (path : Str) (readMode eol : Str) : PyM Loade
   if readMode.contains 'b' || !isStdEol eol then do
     let data ← openIn fs path (rdB ++ readMode.drop 1)
     if readMode.contains 't' then
-      if eol.isEmpty then .error .Unsupported   -- bytes.replace(b'', …) is not modelled
-      else
-        match c.decode (replace (utf8Enc eol) lf data) with
-        | some s => .ok (.str s)
-        | none => .error .ValueError
+      -- fix C15-c: the EOL is looked for as `save_file` wrote it, `EOL.encode(encoding)[len(signature):]`
+      match c.enc eol with
+      | none => .error .ValueError               -- UnicodeEncodeError
+      | some eolB =>
+        if eol.isEmpty then .error .Unsupported   -- bytes.replace(b'', …) is not modelled
+        else
+          match c.decode (replace eolB lf data) with
+          | some s => .ok (.str s)
+          | none => .error .ValueError
     else .ok (.bytes data)
   else do
     let data ← openIn fs path (rdT ++ readMode.drop 1)
@@ -326,17 +332,27 @@ def loadFile (c : Codec) (fs : FS) (path : Str) (readMode eol : Str) : PyM Loade
     | some s => .ok (.str (univNL s))
     | none => .error .ValueError
 
+/-- fix C15-d: `if not lines[-1]: lines.pop()` — the piece after the last EOL is not a line when it
+is empty (`split` never returns an empty list) -/
+def dropLastEmpty : List Bytes → List Bytes
+  | [] => []
+  | [x] => if x.isEmpty then [] else [x]
+  | x :: y :: xs => x :: dropLastEmpty (y :: xs)
+
 /-- `list(load_lines(file_path, read_mode, encoding, EOL))` -/
 def loadLines (c : Codec) (fs : FS) (path : Str) (readMode eol : Str) : PyM (List Loaded) :=
-  if readMode.contains 'b' || !isStdEol eol then do
-    let eolB := utf8Enc eol
-    -- load_file(file_path, read_mode='b'): the encoding and EOL defaults play no role
-    let r ← loadFile c fs path ['b'] lf
-    match r with
-    | .bytes data =>
-      if eolB.isEmpty then .error .ValueError    -- split(b''): empty separator
-      else .ok ((split eolB data).map Loaded.bytes)
-    | .str _ => .error .TypeError
+  if readMode.contains 'b' || !isStdEol eol then
+    -- fix C15-c: `EOL.encode(encoding)[len(signature):]`, before the file is touched
+    match c.enc eol with
+    | none => .error .ValueError                 -- UnicodeEncodeError
+    | some eolB => do
+      -- load_file(file_path, read_mode='b'): the encoding and EOL defaults play no role
+      let r ← loadFile c fs path ['b'] lf
+      match r with
+      | .bytes data =>
+        if eolB.isEmpty then .error .ValueError    -- split(b''): empty separator
+        else .ok ((dropLastEmpty (split eolB data)).map Loaded.bytes)
+      | .str _ => .error .TypeError
   else do
     let data ← openIn fs path rdT
     match c.decodeStream data with
@@ -411,5 +427,23 @@ def tableCodec (t : List (Option Nat)) : Codec :=
 
 /-- cp1252: the table is generated from the running interpreter (`harness/translate_cp1252.py`) -/
 def cp1252 : Codec := tableCodec Gen.Cp1252.table
+
+/-! ### vocabulary of the binary `load_lines` statements (executable: also answered by the driver) -/
+
+/-- **the condition on a line**: the first occurrence of the EOL in `line + EOL` is the one at the
+end of the line — Python: `(line + EOL).find(EOL) == len(line)`.  It fails when the line contains
+the EOL, and when an end of the line together with a beginning of the EOL spells the EOL
+(`'a|' + '||'`); what follows the EOL (the next line) plays no role. -/
+def lineOk (e : Bytes) : Bytes → Bool
+  | [] => true
+  | c :: l => !startsWith (c :: l ++ e) e && lineOk e l
+
+/-- the file content for a list of byte lines: every line followed by the EOL -/
+def unlinesB (e : Bytes) (ls : List Bytes) : Bytes := ls.flatMap (fun l => l ++ e)
+
+/-- the start-of-stream mark goes in front of the first line -/
+def markFirst (bom : Bytes) : List Bytes → List Bytes
+  | [] => []
+  | l :: ls => (bom ++ l) :: ls
 
 end N0.Files
